@@ -140,14 +140,29 @@ Proof.
 Qed.
 
 (* ---- a plain emission is never null-like, empty, a merge key in key position, or a marker ---- *)
+Lemma ascii_lower_inv c k : (97 <= k)%N -> (k <= 122)%N -> ascii_lower c = k -> c = k \/ c = (k - 32)%N.
+Proof. unfold ascii_lower. intros H1 H2. destruct ((65 <=? c) && (c <=? 90))%N eqn:E; intros H; [right|left]; lia. Qed.
+
 Lemma ambiguous_covers_nullish s : is_ambiguous s = false -> scalar_is_nullish s Plain = false.
 Proof.
-  unfold is_ambiguous, scalar_is_nullish. destruct s as [|c r]; [discriminate|].
-  intros H. cbn [is_plain]. apply orb_false_iff in H. destruct H as [H _].
-  repeat (apply orb_false_iff in H; destruct H as [H ?]).
-  unfold eqi, S_NULL, s_tilde, s_null in *. cbn [andb orb]. 
-  match goal with Ht : str_eqb _ [126] = false, Hn : eq_ignore_ascii_case _ _ = false |- _ => rewrite Ht, Hn end.
-  reflexivity.
+  intros H. destruct (scalar_is_nullish s Plain) eqn:Hn; [exfalso|reflexivity].
+  unfold scalar_is_nullish in Hn. cbn [is_plain andb] in Hn.
+  apply orb_true_iff in Hn. destruct Hn as [Hn|Hn]; [apply orb_true_iff in Hn; destruct Hn as [Hn|Hn]|].
+  - destruct s; [vm_compute in H; discriminate|discriminate].
+  - assert (s = [126%N]) as ->.
+    { unfold s_tilde in Hn. destruct s as [|c [|c2 r]]; cbn [str_eqb] in Hn; try discriminate.
+      - rewrite andb_true_r in Hn. apply N.eqb_eq in Hn. subst. reflexivity.
+      - rewrite andb_false_r in Hn. discriminate. }
+    vm_compute in H. discriminate.
+  - unfold eq_ignore_ascii_case, to_ascii_lowercase, s_null in Hn.
+    destruct s as [|c1 [|c2 [|c3 [|c4 [|c5 r]]]]]; cbn [map str_eqb] in Hn; try discriminate;
+      try (rewrite ?andb_false_r in Hn; discriminate).
+    rewrite andb_true_r in Hn.
+    repeat match goal with Hx : (_ && _)%bool = true |- _ => apply andb_true_iff in Hx; destruct Hx end.
+    repeat match goal with Hx : (_ =? _)%N = true |- _ => apply N.eqb_eq in Hx end.
+    change (ascii_lower 110) with 110%N in *. change (ascii_lower 117) with 117%N in *. change (ascii_lower 108) with 108%N in *.
+    repeat match goal with Hx : ascii_lower ?c = ?k |- _ => apply ascii_lower_inv in Hx; [|lia|lia] end.
+    repeat match goal with Hx : _ \/ _ |- _ => destruct Hx as [Hx|Hx] end; subst; vm_compute in H; discriminate.
 Qed.
 
 Theorem plain_value_reads_back_as_string c s y12 flow :
